@@ -832,15 +832,20 @@ def root_object(t: T) -> T:
     return t
 
 
+# sample command line of the probe: distinct values, so that a crossing of
+# the two thresholds shows (with 1 / 1 it would not)
+PROBE_DIST, PROBE_ANGLE_DEG = 2.0, 3.0
+
+
 def motion_filter_probe(prog, caller, call_pred, dist_cli: T, ang_cli: T):
     """What does the motion filter behind each selected call compare with?
     The caller is interpreted with the method and evo.core.filters looked
     through; for every call the thresholds that meet the accumulated
     distance and the rotation angle in a comparison are evaluated for
-    (distance, angle) = (1.0, 1.0) given on the command line.  Whatever the
+    (distance, angle) = (2.0, 3.0) given on the command line.  Whatever the
     signature in between (a degrees flag, a unit enum, a helper that converts
-    once) the distance must arrive as 1.0 and the angle — typed in degrees —
-    as pi/180 rad.  Returns [(call event, distance value | None, angle value
+    once) the distance must arrive as 2.0 and the angle — typed in degrees —
+    as 3 pi/180 rad.  Returns [(call event, distance value | None, angle value
     | None)]; None where no such comparison was found / evaluated."""
     from .interp import Interp
 
@@ -850,7 +855,7 @@ def motion_filter_probe(prog, caller, call_pred, dist_cli: T, ang_cli: T):
     r = Interp(prog, inline=inline, max_depth=4).run(caller)
     calls = [e for e in r.of_kind("call") if call_pred(e)]
     out = []
-    env = {dist_cli: 1.0, ang_cli: 1.0}
+    env = {dist_cli: PROBE_DIST, ang_cli: PROBE_ANGLE_DEG}
     for k, ce in enumerate(calls):
         hi = min([x.idx for x in calls if x.idx > ce.idx] or
                  [len(r.events) + 1])
